@@ -52,7 +52,13 @@ def _gr(prop, tier, seed, replay=None):
     return run_grammar.run(prop, tier, seed, replay)
 
 
+def _split(prop, tier, seed, replay=None):
+    from . import run_split
+    return run_split.run(prop, tier, seed, replay)
+
+
 CHECKS = {
+    'C17': _split,
     'C06': _gr, 'C09': _gr, 'C07': _gr, 'C08': _gr,
     'C10': _trn,
     'C11': _tf, 'C12': _tf, 'C05': _tf, 'C13': _tf, 'C14': _tf, 'C15': _tf, 'C04': _tf,
